@@ -85,6 +85,9 @@ def cfg(name, spec, keys, vals, maxit, sorted_, ops, ghost, record, invs=None, w
 
 
 NOTE = ["-noGenerateSpecTE"]
+# hash argument of harness/ht.cpp
+HNAME = {0: "default", 1: "all keys in one bucket", 2: "boundary hash codes (guard value 0xFFFFFFFF, 0, 0xFFFFFFFE, 1; shared)", 3: "distinct codes colliding modulo the table size",
+         4: "default functor, key 2 = 1621770658 whose hash code is the guard value 0xFFFFFFFF", 6: "boundary hash codes + key offset"}
 
 
 T0 = [time.time()]
@@ -189,7 +192,7 @@ def _run(v, tier, seed, quick):
         rep = W("rep_%s_%d_%d_%d_%d.ndjson" % (tag.replace("/", "-"), bad, P, slack, cls)); prog = rep + ".progress"
         f_build.result(); t0 = time.time()
         rc, out, err = vlib.run([ht, "replay", bf, rep, str(bad), str(P), str(slack), prog, str(cls)], timeout=3000)
-        info = {"instance": tag, "class": ["Hashtable", "OrderedKeysHashtable", "OrderedValuesHashtable"][cls], "colliding_hash": bool(bad), "prefill": P, "slack": slack, "wall_s": round(time.time() - t0, 1)}
+        info = {"instance": tag, "class": ["Hashtable", "OrderedKeysHashtable", "OrderedValuesHashtable"][cls], "hash": HNAME[bad], "prefill": P, "slack": slack, "wall_s": round(time.time() - t0, 1)}
         if os.environ.get("C09_TIMING"): vlib.log("  [t+%.0fs] replay %s took %.1fs" % (time.time() - T0[0], info, time.time() - t0))
         if rc != 0:
             cur = open(prog).read().strip() if os.path.exists(prog) else "?"
@@ -206,7 +209,7 @@ def _run(v, tier, seed, quick):
         rep = W("rnd_%d.ndjson" % idx); tr = W("trace_%d.ndjson" % idx)
         f_build.result(); t0 = time.time()
         rc, out, err = vlib.run([ht, "random", rep, tr, str(seed * 131 + idx), str(runs), str(nops), str(cls), str(bad), str(P), str(slack), str(K), str(V), str(NIT)], timeout=3000)
-        info = {"class": ["Hashtable", "OrderedKeysHashtable", "OrderedValuesHashtable"][cls], "colliding_hash": bool(bad), "prefill": P, "slack": slack, "runs": runs, "calls_per_run": nops}
+        info = {"class": ["Hashtable", "OrderedKeysHashtable", "OrderedValuesHashtable"][cls], "hash": HNAME[bad], "prefill": P, "slack": slack, "runs": runs, "calls_per_run": nops}
         if rc != 0:
             if rc in (66, 67) or rc < 0 or "Sanitizer" in err or "runtime error" in err:
                 return info, None, None, {"what": "sanitizer report / crash (rc=%s) in a random run (%s): %s" % (rc, info, _first_report(err)),
@@ -245,6 +248,7 @@ def _run(v, tier, seed, quick):
         for cls in (0, 1, 2):
             rnd += [(cls, 0, 0, 0, 12 if cls == 0 else 8, 300), (cls, 1, 0, 2, 12 if cls == 0 else 8, 300), (cls, cls % 2, 253, (cls + 1) % 4, 10, 300), (cls, (cls + 1) % 2, 253, (cls + 3) % 4, 10, 300)]
         rnd += [(0, 1, 65533, 1, 2, 150), (1, 0, 65533, 3, 1, 150), (2, 0, 65533, 2, 1, 150)]
+        rnd += [(0, 2, 0, 1, 8, 300), (0, 4, 0, 0, 8, 300), (0, 3, 0, 3, 6, 300), (1, 4, 0, 1, 6, 300), (2, 2, 0, 2, 6, 300), (1, 2, 253, 1, 6, 300), (2, 4, 253, 2, 6, 300), (0, 6, 253, 0, 6, 300)]
     else:
         mc_jobs = [("3keys_single_table", [1, 2, 3], [1], 1, "none", MC_SINGLE, 2), ("3keys_1it", [1, 2, 3], [1], 1, "none", MC_OPS, 4), ("2keys_2vals_1it_all", [1, 2], [1, 2], 1, "none", [o for o in ALL_OPS if o != "ItCopy"], 4),
                    ("2keys_2its", [1, 2], [1], 2, "none", ["Put", "Remove", "MoveToBack", "MoveToBefore", "PutAtPosition", "Clear", "Swap", "MoveToTable", "ItNew", "ItNewAt", "ItAdv", "ItRet", "ItDel", "ItCopy"], 4)]
@@ -256,6 +260,8 @@ def _run(v, tier, seed, quick):
         for cls in (0, 1, 2):
             for bad in (0, 1):
                 rnd += [(cls, bad, 0, s, 150, 400) for s in (0, 1, 2, 3)] + [(cls, bad, 253, s, 150, 400) for s in (0, 1, 2, 3)] + [(cls, bad, 65533, s, 6, 300) for s in (1, 2, 3)]
+            for h in ((2, 3, 4, 6) if cls == 0 else (2, 4, 6)):
+                rnd += [(cls, h, 0, s, 100, 400) for s in (0, 1, 3)] + [(cls, h, 253, s, 100, 400) for s in (0, 2)] + [(cls, h, 65533, 2, 4, 300)]
     sorted_mc = []
     if not quick:
         so = MC_SORTED_FULL
@@ -285,6 +291,7 @@ def _run(v, tier, seed, quick):
                 for cls in (1, 2):
                     for bad, slack in (((0, 1), (1, 2), (0, 0)) if quick else [(h, sl) for h in (0, 1) for sl in (0, 1, 2, 3)]): f_rep.append(ex.submit(replay, tag, bf, bad, 0, slack, cls))
                     f_rep.append(ex.submit(replay, tag, bf, cls % 2, 253, cls, cls))
+                    f_rep.append(ex.submit(replay, tag, bf, 2 if cls == 1 else 4, 0, 2, cls)); f_rep.append(ex.submit(replay, tag, bf, 4 if cls == 1 else 2, 0, 1, cls))
             elif tag == "block":
                 for P in (253,):
                     for slack in (0, 1, 2, 3): f_rep.append(ex.submit(replay, tag, bf, slack % 2, P, slack))
@@ -292,9 +299,11 @@ def _run(v, tier, seed, quick):
                         for slack in (0, 1, 2, 3): f_rep.append(ex.submit(replay, tag, bf, (slack + 1) % 2, P, slack))
                 sub = subset(bf, tag, big_every)
                 for slack in ((1, 3) if quick else (0, 1, 2, 3)): f_rep.append(ex.submit(replay, tag + "/%d" % big_every, sub, (slack // 2) % 2, 65533, slack))
-                f_rep.append(ex.submit(replay, tag, bf, 0, 0, 0))
+                f_rep.append(ex.submit(replay, tag, bf, 0, 0, 0)); f_rep.append(ex.submit(replay, tag, bf, 2, 253, 1)); f_rep.append(ex.submit(replay, tag, bf, 4, 253, 3))
             else:
                 for bad, slack in (((0, 0), (1, 1)) if quick else [(h, sl) for h in (0, 1) for sl in (0, 1, 2, 3)]): f_rep.append(ex.submit(replay, tag, bf, bad, 0, slack))
+                # adversarial hash layouts: boundary hash codes, the key whose default hash code is the guard value, codes colliding modulo the table size
+                for h, slack in (((2, 1), (4, 0), (3, 2)) if quick or tag.endswith("_big") else [(h, sl) for h in (2, 3, 4, 6) for sl in (0, 1, 2)]): f_rep.append(ex.submit(replay, tag, bf, h, 0, slack))
                 f_rep.append(ex.submit(replay, tag, bf, 1, 253, 1))     # most behaviours are cut at a call that is not applicable next to a block; the rest still counts
                 if tag in ("twoit", "two"): f_rep.append(ex.submit(replay, tag + "/%d" % big_every, subset(bf, tag, big_every), 0, 65533, 2))
         for f in f_mc:
@@ -311,7 +320,7 @@ def _run(v, tier, seed, quick):
             notes["replay_configs"].append(dict(info, behaviours=summ["behaviours"], followed=summ["followed"], cut=summ["cut_not_applicable"], steps=summ["steps"], slots=[summ["min_slots"], summ["max_slots"]]))
             for r in rows:
                 if r.get("summary"): continue
-                if r.get("violations"): violation("replay of a MapAbs behaviour (%s hash=%s prefill=%d slack=%d): %s" % (info["instance"], info["colliding_hash"], info["prefill"], info["slack"], "; ".join(r["violations"])), r, "replay")
+                if r.get("violations"): violation("replay of a MapAbs behaviour (%s hash=%s prefill=%d slack=%d): %s" % (info["instance"], info["hash"], info["prefill"], info["slack"], "; ".join(r["violations"])), r, "replay")
                 elif r.get("drift"):
                     v.drift += 1
                     if v.drift <= 3: vlib.log("DRIFT property=C09 behaviour %s of %s: %s" % (r.get("behaviour"), info["instance"], r["drift"][:300]))
